@@ -363,6 +363,23 @@ def split_prop_check(ctx, c, outs):
         X, Y = _vector2xy(V(up), -1)
         if np.abs(X - xu).max() > 0 or np.abs(Y - yu).max() > 0:
             return "upper part of the split is not the projection of the upper vectors in input order"
+    # the angle form: spherical2xy_split(azimuth, polar) of unit directions away from the equator and the poles gives the same
+    # split (sizes exactly, coordinates to the conditioning of the angle round trip), in radians and in degrees
+    keep = (np.abs(rel) > 1e-3) & (np.abs(rel) < 1 - 1e-6) & (np.linalg.norm(vs, axis=1) > 1e-3)
+    if keep.any():
+        u = vs[keep] / np.linalg.norm(vs[keep], axis=1)[:, None]
+        az, pol = np.arctan2(u[:, 1], u[:, 0]), np.arccos(u[:, 2])
+        ru = SP.vector2xy_split(V(u))
+        for deg in (False, True):
+            a, p = (np.rad2deg(az), np.rad2deg(pol)) if deg else (az, pol)
+            rs = SP().spherical2xy_split(a, p, degrees=deg)
+            for k, nm in enumerate(("x_upper", "y_upper", "x_lower", "y_lower")):
+                if np.shape(rs[k]) != np.shape(ru[k]):
+                    return (f"spherical2xy_split(degrees={deg}) returns {np.size(rs[k])} values for {nm} but vector2xy_split of the "
+                            f"same directions {np.size(ru[k])} (polar angles {pol.tolist()})")
+                if np.size(ru[k]) and np.abs(np.asarray(rs[k]) - np.asarray(ru[k])).max() > 1e-9:
+                    return (f"spherical2xy_split(degrees={deg}) {nm} = {np.asarray(rs[k]).tolist()} but vector2xy_split of the same "
+                            f"directions gives {np.asarray(ru[k]).tolist()}")
     return None
 
 
